@@ -1,347 +1,22 @@
-(* RBFlushGrid.v -- the terminal grid after a flush, cell by cell, for buffers whose texts consist
-   of width-one characters: every pending cell shows its own content in its own pen, every
-   other cell of the terminal is untouched.  Composition of t_run_paint (RBTermSim.v: what the
-   terminal does with a list of operations) and flush_line_paint (here: which operations the
-   flush emits). *)
+(* RBFlushGrid.v -- the terminal grid after a flush as an exact overlay, for buffers whose texts
+   consist of width-one characters: every pending cell shows its own content in its own pen,
+   every other cell of the terminal is untouched.  A corollary of RBFlushShown.v. *)
 From Coq Require Import ZArith List Bool Lia.
 From Tickit Require Import RectDefs RBDefs RBSpec RBLemmas RBSpanProofs RBAbsLemmas RBInv RBOpProofs RBProofs RBProps
                            RBTheorems Gen_Linechars RBGlyphs RBFlushDefs RBFlushSpec RBFlushProofs RBWidth RBFlushCols
-                           RBFlushReach RBTermSim.
+                           RBFlushReach RBTermSim RBFlushShown.
 Import ListNotations.
 Local Open Scope Z_scope.
 
-(* the texts of a row / of a grid consist of width-one characters *)
-Definition row_narrow (r : row) : Prop :=
-  forall i p s offs n, 0 <= i < len r -> ck (get r i) = Start (CText p s offs) n -> narrow s.
+(* the texts of a grid consist of width-one characters *)
 Definition anarrow (A : ast) : Prop :=
   forall y x p u k, in_grid A y x -> ac (gcell (ag A) y x) = AText p u k -> narrow u.
 
-(* ---------------------------------------------------------------------------------- *)
-(* pens *)
-
-Lemma pen_equiv_canon : forall a b, pen_equiv a b = true -> canon_pen a = canon_pen b.
+Lemma shows_over : forall c old new,
+  shows c old new -> (forall p u k, c = AText p u k -> narrow u) -> new = over c old.
 Proof.
-  intros a b H. unfold pen_equiv, attr_equiv in H.
-  apply andb_true_iff in H. destruct H as (H & H4). apply andb_true_iff in H. destruct H as (H & H3).
-  apply andb_true_iff in H. destruct H as (H1 & H2).
-  apply Z.eqb_eq in H1, H2, H3, H4. unfold canon_pen. congruence.
-Qed.
-
-(* ---------------------------------------------------------------------------------- *)
-(* narrow strings *)
-
-Lemma tw_narrow : forall u, narrow u -> tw u = zlen u.
-Proof.
-  induction u as [|c u IH]; intros N; [reflexivity|]. cbn [tw]. unfold zlen. cbn [length]. rewrite Nat2Z.inj_succ.
-  rewrite (N c (or_introl eq_refl)). unfold zlen in IH. rewrite IH; [lia|]. intros x Hx. apply N. right. exact Hx.
-Qed.
-
-Lemma narrow_valid : forall u, narrow u -> valid u.
-Proof. intros u N c Hc. rewrite (N c Hc). lia. Qed.
-
-Lemma narrow_firstn : forall k u, narrow u -> narrow (firstn k u).
-Proof.
-  induction k as [|k IH]; intros u N; [intros c []|]. destruct u as [|x r]; [intros c []|]. cbn [firstn].
-  intros c [<-|Hc]; [apply N; left; reflexivity|]. apply (IH r); [intros y Hy; apply N; right; exact Hy|exact Hc].
-Qed.
-
-Lemma narrow_skipn : forall k u, narrow u -> narrow (skipn k u).
-Proof.
-  induction k as [|k IH]; intros u N; [exact N|]. destruct u as [|x u]; [exact N|]. cbn [skipn]. apply IH.
-  intros c Hc. apply N. right. exact Hc.
-Qed.
-
-Lemma tw_firstn_narrow : forall k u, narrow u -> (k <= length u)%nat -> tw (firstn k u) = Z.of_nat k.
-Proof.
-  intros k u N Hk. rewrite tw_narrow by (apply narrow_firstn; exact N). unfold zlen. rewrite firstn_length. lia.
-Qed.
-
-(* the flush of a text span of a narrow string is one print of the visible slice *)
-Lemma text_emit_narrow : forall p s offs n,
-  narrow s -> 0 <= offs -> 1 <= n -> offs + n <= zlen s ->
-  text_emit p s offs n = [TSetPen p; TPrint (firstn (Z.to_nat n) (skipn (Z.to_nat offs) s))].
-Proof.
-  intros p s offs n N Ho Hn Hw. unfold zlen in Hw.
-  assert (V := narrow_valid s N).
-  unfold text_emit.
-  (* the start of the slice *)
-  unfold slice_start.
-  destruct (count_from0_stop s offs V Ho) as (k & g & Hk & E0 & Hb & Hnx). rewrite E0.
-  rewrite tw_firstn_narrow in * by assumption.
-  assert (Ek : Z.of_nat k = offs).
-  { destruct Hnx as [->|(c & Hc & Hc1 & Hc2)]; [lia|].
-    rewrite (N c (nth_error_In _ _ Hc)) in Hc2. lia. }
-  cbn [sp_col sp_cp]. rewrite Ek. rewrite Z.ltb_irrefl. cbn [sp_col sp_cp].
-  replace (offs - offs) with 0 by lia. cbn [Z.to_nat repeat app].
-  (* its end *)
-  assert (Ep : mkPos offs g offs = mkPos (Z.of_nat k) g (tw (firstn k s))).
-  { rewrite tw_firstn_narrow by assumption. now rewrite Ek. }
-  rewrite Ep.
-  destruct (count_on_stop s k g (offs + n) V Hk) as (k2 & g2 & Hk2 & E2 & Hb2 & Hnx2).
-  { rewrite tw_firstn_narrow by assumption. lia. }
-  rewrite E2. assert (Tk2 := tw_firstn_narrow k2 s N ltac:(lia)). rewrite Tk2 in Hb2, Hnx2 |- *.
-  assert (Ek2 : Z.of_nat k2 = offs + n).
-  { destruct Hnx2 as [->|(c & Hc & Hc1 & Hc2)]; [lia|].
-    rewrite (N c (nth_error_In _ _ Hc)) in Hc2. lia. }
-  cbn [sp_col sp_cp]. rewrite Ek2, Ek.
-  replace (offs + n - (offs + n)) with 0 by lia. cbn [Z.to_nat repeat].
-  destruct (Z.ltb_spec offs (offs + n)); [|lia]. rewrite app_nil_r. cbn [app].
-  unfold slice, firstz, skipz. cbn [sp_cp].
-  replace (offs + n - offs) with n by lia. reflexivity.
-Qed.
-
-Lemma nth_firstn_skipn : forall (s : list Z) a n j, (j < n)%nat -> (a + n <= length s)%nat ->
-  nth j (firstn n (skipn a s)) 0 = nth (a + j) s 0.
-Proof.
-  intros s a n j Hj Hl.
-  assert (E : nth (a + j) s 0 = nth j (skipn a s) 0).
-  { clear. revert s. induction a as [|a IH]; intros s; [reflexivity|]. destruct s as [|x s]; [destruct j; reflexivity|]. apply IH. }
-  rewrite E. rewrite <- (firstn_skipn n (skipn a s)) at 2. rewrite app_nth1; [reflexivity|].
-  rewrite firstn_length, skipn_length. lia.
-Qed.
-
-(* ---------------------------------------------------------------------------------- *)
-(* the writes of one line, pointwise *)
-
-Definition row_look (w : writes) (r : row) (line col : Z) : Prop :=
-  forall y x d, look w (y, x) d = if (y =? line) && (col <=? x) && (x <? len r) then over (abs_cell r x) d else d.
-
-Lemma row_look_span : forall r line col n cells w,
-  0 <= col -> 1 <= n -> col + n <= len r -> zlen cells = n ->
-  (forall x d, col <= x < col + n -> nth (Z.to_nat (x - col)) cells d = over (abs_cell r x) d) ->
-  row_look w r line (col + n) -> row_look (rw line col cells ++ w) r line col.
-Proof.
-  intros r line col n cells w Hc Hn Hl Hz Hcells Hw y x d.
-  rewrite look_app, look_rw, Hw, Hz.
-  destruct (Z.eqb_spec y line) as [->|Hy]; cbn [andb]; [|reflexivity].
-  destruct (Z.leb_spec col x); destruct (Z.ltb_spec x (col + n)); destruct (Z.leb_spec (col + n) x);
-    destruct (Z.ltb_spec x (len r)); cbn [andb]; try lia; try reflexivity.
-  apply Hcells. lia.
-Qed.
-
-Lemma row_look_skip : forall r line col n w,
-  0 <= col -> 1 <= n -> col + n <= len r ->
-  (forall x, col <= x < col + n -> abs_cell r x = ASkip) ->
-  row_look w r line (col + n) -> row_look w r line col.
-Proof.
-  intros r line col n w Hc Hn Hl Hs Hw y x d. rewrite Hw.
-  destruct (Z.eqb_spec y line) as [->|Hy]; cbn [andb]; [|reflexivity].
-  destruct (Z.leb_spec col x); destruct (Z.leb_spec (col + n) x);
-    destruct (Z.ltb_spec x (len r)); cbn [andb]; try lia; try reflexivity.
-  rewrite Hs by lia. reflexivity.
-Qed.
-
-Lemma nth_map_cell : forall (u : list Z) (pn : pen) j d, (j < length u)%nat ->
-  nth j (map (fun ch => mkT [ch] pn) u) d = mkT [nth j u 0] pn.
-Proof.
-  intros u pn j d Hj. rewrite (nth_indep _ d (mkT [0] pn)) by (rewrite map_length; exact Hj).
-  apply (map_nth (fun ch => mkT [ch] pn) u 0).
-Qed.
-
-(* the run of LINE cells merged into one print *)
-Lemma line_run_cells : forall fuel r col p,
-  WF r -> row_content_ok r -> at_boundary r col ->
-  let '(g, c') := line_run fuel r col p in
-  col <= c' /\ at_boundary r c' /\ zlen g = c' - col /\ narrow g /\
-  forall x, col <= x < c' ->
-    exists q m, abs_cell r x = ALine q m /\ canon_pen q = canon_pen p /\ nth (Z.to_nat (x - col)) g 0 = linechar m.
-Proof.
-  induction fuel as [|f IH]; intros r col p W RC Hb; cbn [line_run].
-  - split; [lia|]. split; [assumption|]. split; [unfold zlen; cbn; lia|]. split; [intros c []|]. intros x Hx. lia.
-  - assert (Triv : col <= col /\ at_boundary r col /\ zlen (@nil Z) = col - col /\ narrow [] /\
-                   forall x, col <= x < col ->
-                     exists q m, abs_cell r x = ALine q m /\ canon_pen q = canon_pen p /\ nth (Z.to_nat (x - col)) [] 0 = linechar m).
-    { split; [lia|]. split; [assumption|]. split; [unfold zlen; cbn; lia|]. split; [intros c []|]. intros x Hx. lia. }
-    destruct (Z.ltb_spec col (len r)) as [Hlt|Hge]; [|exact Triv].
-    destruct Hb as [Hb|(Hc & c & n & Ec)]; [lia|]. rewrite Ec.
-    destruct c as [|? ? ?|?|q m|? ?]; try exact Triv.
-    destruct (pen_equiv q p) eqn:Eq; [|exact Triv].
-    assert (n = 1).
-    { assert (Wc := W col Hc). unfold wf_cellf in Wc. rewrite Ec in Wc. destruct Wc as (_ & _ & K3 & _). now apply K3. }
-    subst n.
-    assert (Hn := next_boundary r col _ _ W Hc Ec).
-    assert (Gw := RC col Hc). unfold span_ok in Gw. rewrite Ec in Gw.
-    specialize (IH r (col + 1) p W RC Hn). destruct (line_run f r (col + 1) p) as [g c'].
-    destruct IH as (I1 & I2 & I3 & I4 & I5). split; [lia|]. split; [assumption|].
-    split; [unfold zlen in *; cbn [length]; lia|].
-    split; [intros c [<-|Hc']; [exact Gw|apply I4; exact Hc']|].
-    intros x Hx. destruct (Z.eq_dec x col) as [->|Hne].
-    + exists q, m. rewrite Z.sub_diag. cbn [Z.to_nat nth]. split; [|split; [apply pen_equiv_canon; exact Eq|reflexivity]].
-      rewrite (span_cells r col _ 1 col W Hc Ec) by lia. rewrite Z.sub_diag. reflexivity.
-    + destruct (I5 x ltac:(lia)) as (q' & m' & A1 & A2 & A3). exists q', m'. split; [exact A1|]. split; [exact A2|].
-      replace (Z.to_nat (x - col)) with (S (Z.to_nat (x - (col + 1)))) by lia. cbn [nth]. exact A3.
-Qed.
-
-(* one line of the flush, as writes *)
-Theorem flush_line_paint : forall fuel r line col phycol cur pn ops L C,
-  WF r -> row_content_ok r -> row_narrow r -> at_boundary r col -> cur_ok line phycol col cur ->
-  0 <= line < L -> len r <= C ->
-  flush_line fuel r line col phycol = Ok ops ->
-  exists w cur' pn', paint L C cur pn ops = Some (w, cur', pn') /\ row_look w r line col.
-Proof.
-  induction fuel as [|f IH]; intros r line col phycol cur pn ops L C W RC RN Hb Hcur HL HC E.
-  - cbn [flush_line] in E. destruct (Z.leb_spec (len r) col) as [Hge|Hlt]; [|discriminate].
-    inversion E; subst. cbn [paint]. do 3 eexists. split; [reflexivity|].
-    intros y x d. unfold look. cbn [fold_left].
-    destruct (Z.leb_spec col x); destruct (Z.ltb_spec x (len r)); try lia; rewrite ?andb_false_r; reflexivity.
-  - cbn [flush_line] in E. destruct (Z.leb_spec (len r) col) as [Hge|Hlt].
-    { inversion E; subst. cbn [paint]. do 3 eexists. split; [reflexivity|].
-      intros y x d. unfold look. cbn [fold_left].
-      destruct (Z.leb_spec col x); destruct (Z.ltb_spec x (len r)); try lia; rewrite ?andb_false_r; reflexivity. }
-    destruct Hb as [Hb|(Hc & c & n & Ec)]; [lia|].
-    rewrite getr_ok in E by assumption. cbn [bind] in E. rewrite Ec in E.
-    assert (Wc := W col Hc). unfold wf_cellf in Wc. rewrite Ec in Wc. destruct Wc as (K1 & K2 & K3 & K4).
-    assert (Hn := next_boundary r col c n W Hc Ec).
-    assert (Gw := RC col Hc). unfold span_ok in Gw. rewrite Ec in Gw.
-    assert (Cells := fun x => span_cells r col c n x W Hc Ec).
-    destruct Hcur as (C1 & C2).
-    assert (Goto : forall q tail, paint L C cur q ((if phycol <? col then [TGoto line col] else []) ++ tail) =
-                                  paint L C (Some (line, col)) q tail).
-    { intros q tail. destruct (Z.ltb_spec phycol col); cbn [app paint]; [|rewrite C2 by lia; reflexivity].
-      destruct (Z.leb_spec 0 line); [|lia]. destruct (Z.ltb_spec line L); [|lia].
-      destruct (Z.leb_spec 0 col); [|lia]. destruct (Z.ltb_spec col C); [|lia]. reflexivity. }
-    destruct c as [|p s offs|p|p m|p cp].
-    + (* skip *)
-      destruct (IH r line (col + n) phycol cur pn ops L C W RC RN Hn) as (w & cur' & pn' & P & Lk); try assumption.
-      { split; [lia|intros; lia]. }
-      exists w, cur', pn'. split; [exact P|].
-      apply (row_look_skip r line col n w); try lia; [|exact Lk].
-      intros x Hx. rewrite Cells by lia. reflexivity.
-    + (* text *)
-      destruct (flush_line f r line (col + n) (col + n)) as [rest| |] eqn:Er; cbn [bind] in E; try discriminate.
-      assert (Eo : ops = (if phycol <? col then [TGoto line col] else []) ++ text_emit p s offs n ++ rest)
-        by (inversion E; reflexivity).
-      subst ops. clear E.
-      destruct Gw as (G1 & G2 & G3).
-      assert (Ns : narrow s) by (eapply RN; eassumption).
-      rewrite text_width_tw, (tw_narrow s Ns) in G3.
-      rewrite text_emit_narrow by (assumption || lia).
-      set (u := firstn (Z.to_nat n) (skipn (Z.to_nat offs) s)).
-      assert (Lu : length u = Z.to_nat n).
-      { unfold u. rewrite firstn_length, skipn_length. unfold zlen in G3. lia. }
-      assert (Nu : narrowb u = true) by (apply narrowb_narrow; unfold u; apply narrow_firstn, narrow_skipn; exact Ns).
-      rewrite Goto. cbn [app paint]. rewrite Nu. unfold zlen at 1. rewrite Lu, Z2Nat.id by lia.
-      destruct (Z.leb_spec (col + n) C); [|lia]. cbn [andb].
-      destruct (IH r line (col + n) (col + n) (Some (line, col + n)) (canon_pen p) rest L C W RC RN Hn)
-        as (w & cur' & pn' & P & Lk); try assumption.
-      { split; [lia|reflexivity]. }
-      unfold zlen. rewrite Lu, Z2Nat.id by lia. rewrite P.
-      do 3 eexists. split; [reflexivity|].
-      apply (row_look_span r line col n); try lia; [unfold zlen; rewrite map_length; lia| |exact Lk].
-      intros x d Hx. rewrite nth_map_cell by lia. rewrite Cells by lia. unfold over. cbn [content_at xcell].
-      do 2 f_equal. unfold u. rewrite nth_firstn_skipn by (unfold zlen in G3; lia). f_equal. lia.
-    + (* erase *)
-      destruct (if col + n <? len r then getr r (col + n) else Ok dcell) as [nx| |]; cbn [bind] in E; try discriminate.
-      cbv zeta in E.
-      set (mv0 := (col + n <? len r) && match ck nx with Start CSkip _ => false | _ => true end) in E.
-      destruct (flush_line f r line (col + n) (if mv0 then col + n else -1)) as [rest| |] eqn:Er; cbn [bind] in E; try discriminate.
-      assert (Eo : ops = (if phycol <? col then [TGoto line col] else []) ++ [TSetPen p; TErase n mv0] ++ rest)
-        by (inversion E; reflexivity).
-      subst ops. clear E.
-      rewrite Goto. cbn [app paint].
-      destruct (Z.leb_spec 0 n); [|lia]. destruct (Z.leb_spec (col + n) C); [|lia]. cbn [andb].
-      destruct (IH r line (col + n) (if mv0 then col + n else -1) (if mv0 then Some (line, col + n) else None) (canon_pen p) rest L C W RC RN Hn)
-        as (w & cur' & pn' & P & Lk); try assumption.
-      { destruct mv0; split; try lia; try reflexivity. }
-      rewrite P. do 3 eexists. split; [reflexivity|].
-      apply (row_look_span r line col n); try lia; [rewrite zlen_repeat; lia| |exact Lk].
-      intros x d Hx. rewrite Cells by lia. unfold over. cbn [content_at xcell].
-      assert (Hin : In (nth (Z.to_nat (x - col)) (repeat (mkT [32] (canon_pen p)) (Z.to_nat n)) d)
-                       (repeat (mkT [32] (canon_pen p)) (Z.to_nat n))).
-      { apply nth_In. rewrite repeat_length. lia. }
-      apply repeat_spec in Hin. exact Hin.
-    + (* line run *)
-      specialize (K3 eq_refl). subst n.
-      assert (R := line_run_cells (S (Z.to_nat (len r))) r (col + 1) p W RC Hn).
-      destruct (line_run (S (Z.to_nat (len r))) r (col + 1) p) as [gl c'].
-      destruct R as (R1 & R2 & R3 & R4 & R5).
-      match type of E with context [flush_line f r line c' ?ph] =>
-        destruct (flush_line f r line c' ph) as [rest| |] eqn:Er end; cbn [bind] in E; try discriminate.
-      inversion E; subst ops. clear E.
-      assert (Nu : narrow (linechar m :: gl)) by (intros c [<-|Hc']; [exact Gw|apply R4; exact Hc']).
-      assert (Zu : zlen (linechar m :: gl) = c' - col) by (unfold zlen in *; cbn [length]; lia).
-      assert (Bc : c' <= len r) by (destruct R2 as [->|(? & _)]; lia).
-      rewrite Goto. cbn [app paint]. rewrite (proj2 (narrowb_narrow _) Nu). rewrite Zu.
-      destruct (Z.leb_spec (col + (c' - col)) C); [|lia]. cbn [andb].
-      destruct (IH r line c' (col + 1 + (c' - (col + 1))) (Some (line, col + (c' - col))) (canon_pen p) rest L C W RC RN R2)
-        as (w & cur' & pn' & P & Lk); try assumption.
-      { split; [lia|]. intros _. do 2 f_equal. lia. }
-      rewrite P. do 3 eexists. split; [reflexivity|].
-      replace c' with (col + (c' - col)) in Lk by lia.
-      apply (row_look_span r line col (c' - col)); try lia; [unfold zlen in *; rewrite map_length; exact Zu| |exact Lk].
-      intros x d Hx. rewrite nth_map_cell by (unfold zlen in Zu; lia).
-      destruct (Z.eq_dec x col) as [->|Hne].
-      * rewrite Z.sub_diag. cbn [Z.to_nat nth]. rewrite Cells by lia. reflexivity.
-      * destruct (R5 x ltac:(lia)) as (q' & m' & A1 & A2 & A3). rewrite A1. unfold over. cbn [xcell].
-        replace (Z.to_nat (x - col)) with (S (Z.to_nat (x - (col + 1)))) by lia. cbn [nth]. rewrite A3, A2. reflexivity.
-    + (* char *)
-      destruct (flush_line f r line (col + n) (col + n)) as [rest| |] eqn:Er; cbn [bind] in E; try discriminate.
-      inversion E; subst ops. clear E.
-      specialize (K3 eq_refl). subst n.
-      assert (Nu : narrow [cp]) by (intros c [<-|[]]; exact Gw).
-      rewrite Goto. cbn [app paint]. rewrite (proj2 (narrowb_narrow _) Nu).
-      change (zlen [cp]) with 1.
-      destruct (Z.leb_spec (col + 1) C); [|lia]. cbn [andb].
-      destruct (IH r line (col + 1) (col + 1) (Some (line, col + 1)) (canon_pen p) rest L C W RC RN Hn)
-        as (w & cur' & pn' & P & Lk); try assumption.
-      { split; [lia|reflexivity]. }
-      rewrite P. do 3 eexists. split; [reflexivity|].
-      apply (row_look_span r line col 1); try lia; [reflexivity| |exact Lk].
-      intros x d Hx. assert (x = col) by lia. subst x. rewrite Z.sub_diag. cbn [Z.to_nat map nth].
-      rewrite Cells by lia. reflexivity.
-Qed.
-
-(* all lines *)
-Theorem flush_rows_paint : forall rows line cur pn ops L C,
-  (forall r, In r rows -> WF r /\ row_content_ok r /\ row_narrow r /\ len r <= C) ->
-  0 <= line -> line + zlen rows <= L ->
-  flush_rows rows line = Ok ops ->
-  exists w cur' pn', paint L C cur pn ops = Some (w, cur', pn') /\
-    forall y x d, look w (y, x) d =
-      if (line <=? y) && (y <? line + zlen rows) && (0 <=? x) && (x <? len (zn rows (y - line) []))
-      then over (abs_cell (zn rows (y - line) []) x) d else d.
-Proof.
-  induction rows as [|r rows IH]; intros line cur pn ops L C H Hl HL E; cbn [flush_rows] in E.
-  - inversion E; subst. cbn [paint]. do 3 eexists. split; [reflexivity|]. intros y x d. unfold look, zlen. cbn [fold_left length Z.of_nat].
-    destruct (Z.leb_spec line y); destruct (Z.ltb_spec y (line + 0)); cbn [andb]; try lia; reflexivity.
-  - destruct (flush_line (S (length r)) r line 0 (-1)) as [a| |] eqn:Ea; cbn [bind] in E; try discriminate.
-    destruct (flush_rows rows (line + 1)) as [b| |] eqn:Eb; cbn [bind] in E; try discriminate.
-    inversion E; subst ops. clear E.
-    destruct (H r (or_introl eq_refl)) as (W & RC & RN & HC).
-    unfold zlen in HL. cbn [length] in HL. rewrite Nat2Z.inj_succ in HL.
-    destruct (flush_line_paint (S (length r)) r line 0 (-1) cur pn a L C W RC RN (row_start_boundary r W))
-      as (wa & c1 & p1 & Pa & La); try assumption; try lia.
-    { split; [lia|intros; lia]. }
-    destruct (IH (line + 1) c1 p1 b L C (fun r' Hr' => H r' (or_intror Hr'))) as (wb & c2 & p2 & Pb & Lb); try (unfold zlen; lia); [exact Eb|].
-    rewrite paint_app, Pa, Pb. do 3 eexists. split; [reflexivity|].
-    intros y x d. rewrite look_app, Lb, La. unfold zlen. cbn [length]. rewrite Nat2Z.inj_succ.
-    destruct (Z.eq_dec y line) as [->|Hne].
-    + rewrite Z.eqb_refl, Z.sub_diag. unfold zn at 3 4. cbn [Z.to_nat nth].
-      destruct (Z.leb_spec (line + 1) line); [lia|]. cbn [andb].
-      destruct (Z.leb_spec line line); [|lia]. destruct (Z.ltb_spec line (line + Z.succ (Z.of_nat (length rows)))); [|lia].
-      cbn [andb]. reflexivity.
-    + rewrite (proj2 (Z.eqb_neq y line)) by lia. cbn [andb].
-      assert (Ez : zn (r :: rows) (y - line) [] = zn rows (y - (line + 1)) [] \/ y < line).
-      { destruct (Z_lt_le_dec y line); [right; assumption|left].
-        unfold zn. replace (Z.to_nat (y - line)) with (S (Z.to_nat (y - (line + 1)))) by lia. reflexivity. }
-      destruct Ez as [Ez|Hlt].
-      * rewrite Ez.
-        destruct (Z.leb_spec (line + 1) y); destruct (Z.leb_spec line y); try lia; cbn [andb]; try reflexivity.
-        destruct (Z.ltb_spec y (line + 1 + Z.of_nat (length rows))); destruct (Z.ltb_spec y (line + Z.succ (Z.of_nat (length rows))));
-          try lia; reflexivity.
-      * destruct (Z.leb_spec (line + 1) y); [lia|]. destruct (Z.leb_spec line y); [lia|]. reflexivity.
-Qed.
-
-(* ---------------------------------------------------------------------------------- *)
-(* the theorem *)
-
-Lemma rows_narrow : forall s y, Inv s -> anarrow (abs_rb s) -> 0 <= y < rb_lines s -> row_narrow (zn (cells s) y []).
-Proof.
-  intros s y I Hn Hy i p u offs n Hi Ei.
-  destruct (inv_rows s I y Hy) as (Hl & W & _).
-  apply (Hn y i p u offs).
-  - split; cbn [abs_rb a_lines a_cols]; lia.
-  - rewrite gcell_abs by (assumption || lia). unfold abs_cell. rewrite Ei. cbn [content_at]. f_equal. lia.
+  intros c old new H N. destruct c; cbn [shows] in H; unfold over; cbn [xcell]; try exact H.
+  destruct H as (H1 & H2). specialize (H2 (N _ _ _ eq_refl)). destruct new as [t q]. cbn [t_text t_pen] in *. congruence.
 Qed.
 
 (* Flushing onto a terminal at least as large as the buffer: the terminal executes the emitted
@@ -360,27 +35,14 @@ Theorem flush_grid_narrow : forall s t0 ops s',
       then over (ac (gcell (ag (abs_rb s)) y x)) (tcellat t0 y x)
       else tcellat t0 y x.
 Proof.
-  intros s t0 ops s' I Hc Hn T HL HC E. unfold flush in E.
-  destruct (flush_rows (cells s) 0) as [o| |] eqn:Er; cbn [bind] in E; try discriminate.
-  inversion E; subst o s'. clear E.
-  destruct (flush_rows_paint (cells s) 0 None (t_cur t0) ops (t_lines t0) (t_cols t0)) as (w & cur' & pn' & P & Lk); try lia.
-  { intros r Hr. apply In_nth with (d := []) in Hr. destruct Hr as (k & Hk & <-).
-    assert (Hy : 0 <= Z.of_nat k < rb_lines s) by (rewrite <- (inv_lines s I); unfold zlen; lia).
-    destruct (inv_rows s I (Z.of_nat k) Hy) as (Hl & W & _).
-    assert (RC := rows_content_ok s (Z.of_nat k) I Hc Hy).
-    assert (RN := rows_narrow s (Z.of_nat k) I Hn Hy).
-    unfold zn in W, RC, RN, Hl. rewrite Nat2Z.id in W, RC, RN, Hl. repeat split; try assumption. lia. }
-  { rewrite (inv_lines s I). lia. }
-  { exact Er. }
-  destruct (t_run_paint ops t0 None w cur' pn' T Logic.I P) as (t1 & Et & T1 & F1 & _ & _ & G).
+  intros s t0 ops s' I Hc Hn T HL HC E.
+  destruct (flush_grid_shows s t0 ops s' I Hc T HL HC E) as (t1 & Et & T1 & F1 & G).
   exists t1. split; [exact Et|]. split; [exact T1|]. split; [exact F1|].
-  intros y x Hy Hx. rewrite G by assumption. rewrite Lk. rewrite Z.add_0_l, Z.sub_0_r, (inv_lines s I).
-  destruct (Z.leb_spec 0 y); [|lia]. cbn [andb].
-  destruct (Z.ltb_spec y (rb_lines s)); cbn [andb]; [|reflexivity].
-  destruct (inv_rows s I y ltac:(lia)) as (Hl & _). rewrite Hl.
-  destruct (Z.leb_spec 0 x); [|lia]. cbn [andb].
-  destruct (Z.ltb_spec x (rb_cols s)); [|reflexivity].
-  rewrite gcell_abs by (assumption || lia). reflexivity.
+  intros y x Hy Hx. specialize (G y x Hy Hx).
+  destruct (Z.ltb_spec y (rb_lines s)); cbn [andb] in *; [|exact G].
+  destruct (Z.ltb_spec x (rb_cols s)); [|exact G].
+  apply shows_over; [exact G|]. intros p u k Ec. apply (Hn y x p u k); [|exact Ec].
+  split; cbn [abs_rb a_lines a_cols]; lia.
 Qed.
 
 (* the same as the verdict of the oracle's checker (clause 5 of flush_checkb) *)
@@ -504,16 +166,8 @@ Proof.
   destruct (arun A1 ops) as [A2 v2]. exact IH.
 Qed.
 
-Lemma arun_dims : forall ops A, ashape A ->
-  a_lines (fst (arun A ops)) = a_lines A /\ a_cols (fst (arun A ops)) = a_cols A.
-Proof.
-  induction ops as [|o ops IH]; intros A Hs; cbn [arun]; [split; reflexivity|].
-  destruct (astep_shape A o Hs) as (H2 & H3 & H4). destruct (astep A o) as [A1 v1]. cbn [fst] in *.
-  specialize (IH A1 H2). destruct (arun A1 ops) as [A2 v2]. cbn [fst] in *. destruct IH. split; congruence.
-Qed.
-
 (* ... for every buffer reached by a drawing program whose texts and characters have width one *)
-Theorem flush_grid_reachable : forall L C prog s v t0,
+Theorem flush_grid_narrow_reachable : forall L C prog s v t0,
   0 <= L -> 0 <= C -> Forall op_ok prog -> Forall op_narrow prog -> run (rb_new L C) prog = Ok (s, v) ->
   term_ok t0 -> L <= t_lines t0 -> C <= t_cols t0 ->
   exists ops t1, flush s = Ok (ops, reset s) /\ t_run t0 ops = Ok t1 /\ term_ok t1 /\ same_frame t0 t1 /\
